@@ -42,12 +42,12 @@ REGISTRY['C10'] = {
     'not_covered': ['interleaving with RRDP file writes, session reset histories', 'publisher_rsync_base string construction'],
 }
 REGISTRY['C13'] = {
-    'v': ['c13_roles', 'c13_h_cas'],
+    'v': ['c13_roles', 'c13_h_api', 'c13_h_cas', 'c13_h_pubd', 'c13_h_ta', 'c13_h_bulk', 'c13_h_testbed', 'c13_h_root', 'c13_h_stats'],
     'k': [],
     'level_text': 'Evaluation core: Role::is_allowed is exactly "per-CA grant beats blanket grant, non-CA requests use the general grant"; AuthInfo::check_permission grants exactly when the authenticated role allows, and passes an authentication error on. Route table: every handler reaches a state-touching facade method only after proceed_permitted with the permission the operation requires for the addressed CA (capability preconditions on the facade; oracle table written from the statement).',
     'level_note': 'PermissionSet::has uninterpreted in the V units (its bit algebra is decided by the K group); facade = KrillManager methods as assumed externals; listing handlers filtering inside closures not covered.',
     'design_ref': 'DESIGN.md section 5 / C13',
-    'not_covered': ['listing handlers that filter inside iterator closures', 'HTTP status mapping'],
+    'not_covered': ['cas.rs::index_get (CA listing filtered inside a filter_map closure)', 'root.rs::ui / assets (static files from a build artefact)', 'metrics.rs and auth.rs (login) handlers', 'HTTP status mapping; effects of refused calls beyond the facade not being called'],
 }
 REGISTRY['C15'] = {
     'v': ['c15_taproxy'],
